@@ -1446,7 +1446,12 @@ def f_float_arith(c):
             ens = [('%s lane %d' % (nm, i), 'spec_ldexp_ok32(%s, %s, (int32_t)spec_sx(%s, %d))' % (t.lane(RV, i), t.lane(a0, i), et.lane(c.a(1), i), et.bits)) for i in range(t.W)]
         else:
             ens = [('%s lane %d' % (nm, i), 'spec_ldexp_ok64(%s, %s, spec_sx(%s, %d))' % (t.lane(RV, i), t.lane(a0, i), et.lane(c.a(1), i), et.bits)) for i in range(t.W)]
-        return Contract('float_' + nm, ['C12'] + sc, ensures=ens, cxx='avel::%s({0}, {1})' % nm, setup=RM_SETUP)
+        # one lane per solver call: each lane is three chained multiplications by powers of two against an exact wide product
+        # (all eight binary64 lanes in one query: > 1500 s; one lane: about a minute)
+        k = Contract('float_' + nm, ['C12'] + sc, ensures=ens, cxx='avel::%s({0}, {1})' % nm, setup=RM_SETUP, flags=(['split'] if t.W > 1 else []))
+        if t.bits == 64:
+            k.mem_gb = 7       # measured: 6-7 GB per lane query; the scheduler runs at most MIDMEM_JOBS of these side by side
+        return k
     return None
 
 
